@@ -493,6 +493,15 @@ func c04Worker(c *core.Ctx, job hashJob, res *core.ShardResult, wl *core.WLog) {
 		lj, _ := json.Marshal([]string{priv + "=" + body, "a"})
 		fmt.Fprintf(w, "%s\t%s\t%s\t%d\t%d\t%s\n", mk, sk, o.Digest, st.ID, nf, lj)
 		res.Count("same_size_same_mtime_edits", int64(step&1))
+		if step == 3 {
+			// the same content with other permission bits: the same (path, content) pair
+			_ = os.Chmod(full, 0o755)
+			if o2 := callHash([]string{full, filepath.Join(st.Root, "a")}, false, nil); o2.Err == nil {
+				res.Evaluations++
+				fmt.Fprintf(w, "%s\t%s\t%s\t%d\t%d\t%s\n", mk, sk, o2.Digest, st.ID, nf, lj)
+				res.Count("permission_changes", 1)
+			}
+		}
 	}
 }
 
